@@ -152,7 +152,8 @@ func InModule(fn *ssa.Function) bool {
 		return InModule(fn.Parent())
 	}
 	if pkg == nil {
-		return false
+		// synthetic wrappers (method-expression thunks, bound methods) of module methods
+		return fn.Synthetic != "" && strings.Contains(fn.String(), ModulePath+".")
 	}
 	return pkg.Pkg.Path() == ModulePath || strings.HasPrefix(pkg.Pkg.Path(), ModulePath+"/")
 }
